@@ -1374,6 +1374,39 @@ fn gen_goal(rng: &mut Rng, prog: &Prog, ar: &[(String, usize)], traits: &[(Strin
         let body = if rng.coin(25) { Goal::And(vec![mk(rng), mk(rng)]) } else { mk(rng) };
         return Goal::Exists(vs, Box::new(body));
     }
+    if !closed && !cx.coind && rng.coin(8) {
+        // equality knots: unknowns are unified with each other first, then one of them with a type that mentions
+        // another one of the same class (occurs check through the union-find) or an unrelated one (control)
+        let gen: Vec<&(String, usize)> = ar.iter().filter(|a| a.1 > 0).collect();
+        if !gen.is_empty() {
+            let n = rng.range(2, 3);
+            let vs: Vec<String> = (1..=n + 1).map(|i| format!("X{}", i)).collect();
+            let mut eqs = vec![];
+            for i in 0..n - 1 {
+                let (a, b) = (Ty::Var(vs[i].clone()), Ty::Var(vs[i + 1].clone()));
+                eqs.push(if rng.coin(50) { Goal::Eq(a, b) } else { Goal::Eq(b, a) });
+            }
+            let cyclic = rng.coin(60);
+            let inner = if cyclic { vs[rng.below(n)].clone() } else { vs[n].clone() };
+            let (c, k) = (*rng.pick(&gen)).clone();
+            let pos = rng.below(k);
+            let zero: Vec<&(String, usize)> = ar.iter().filter(|a| a.1 == 0).collect();
+            let mut args: Vec<Ty> = (0..k).map(|_| Ty::Adt(rng.pick(&zero).0.clone(), vec![])).collect();
+            args[pos] = if rng.coin(30) { Ty::Adt(c.clone(), (0..k).map(|_| Ty::Var(inner.clone())).collect()) } else { Ty::Var(inner.clone()) };
+            let big = Ty::Adt(c, args);
+            let lhs = Ty::Var(vs[rng.below(n)].clone());
+            eqs.push(if rng.coin(50) { Goal::Eq(lhs, big) } else { Goal::Eq(big, lhs) });
+            if rng.coin(40) {
+                eqs.push(Goal::Pred(pred(rng, &cx, &vs, false)));
+            }
+            if rng.coin(50) {
+                let last = eqs.len() - 1;
+                let j = rng.below(eqs.len());
+                eqs.swap(j, last);
+            }
+            return Goal::Exists(vs, Box::new(Goal::And(eqs)));
+        }
+    }
     if closed {
         g(rng, &mut cx, 3, &[], false)
     } else {
